@@ -23,6 +23,7 @@ import (
 	"go.dedis.ch/kyber/v4"
 	"go.dedis.ch/kyber/v4/group/edwards25519"
 	"go.dedis.ch/kyber/v4/pairing"
+	"go.dedis.ch/kyber/v4/group/p256"
 	"go.dedis.ch/kyber/v4/pairing/bls12381/circl"
 	"go.dedis.ch/kyber/v4/xof/blake2xb"
 
@@ -223,6 +224,7 @@ type Scenario struct {
 	Name    string
 	Cfg     string
 	Pairing bool // needs a pairing suite
+	Shape   string // "" = 32-byte points and scalars (twin: Ed25519); "p256" = 65-byte points, 32-byte scalars (twin: P-256)
 	Run     func(c *Ctx)
 }
 
@@ -233,6 +235,13 @@ type edSuite struct {
 
 func (s *edSuite) RandomStream() cipher.Stream { return s.rs }
 
+
+type p256Suite struct {
+	*p256.Suite128
+	rs cipher.Stream
+}
+
+func (s *p256Suite) RandomStream() cipher.Stream { return s.rs }
 
 type prSuite struct {
 	pairing.Suite
@@ -268,11 +277,18 @@ func newCtx(sc Scenario, symbolic bool, seed int64) *Ctx {
 			c.P = ps
 			c.S = ps.Suite
 		} else {
-			c.S = sym.NewSuite(c.W)
+			ss := sym.NewSuite(c.W)
+			if sc.Shape == "p256" {
+				ss.Group.PLen = 65
+			}
+			c.S = ss
 		}
 	} else {
 		rs := &lockedStream{x: blake2xb.New([]byte(fmt.Sprintf("hx-coins|%s|%s|%d", sc.Name, sc.Cfg, seed)))}
 		c.S = &edSuite{edwards25519.NewBlakeSHA256Ed25519(), rs}
+		if sc.Shape == "p256" {
+			c.S = &p256Suite{p256.NewBlakeSHA256P256(), rs}
+		}
 		if sc.Pairing {
 			c.P = &prSuite{circl.NewSuite(), rs}
 		}
